@@ -69,7 +69,7 @@ AlphabetSet ==
      ELSE {}) \cup
     (IF "chk" \in Kinds THEN
         {Op("chk", [BaseTx("seen", s) EXCEPT !.b = b], "fresh") : s \in Addrs, b \in SeenBlocks} \cup
-        {Op("chk", [BaseTx("garbage", NoAddr) EXCEPT !.gm = v], "fresh") : v \in 0..9} \cup
+        {Op("chk", [BaseTx("garbage", NoAddr) EXCEPT !.gm = v], "fresh") : v \in {0, 3}} \cup
         {Op("chk", BaseTx("wrongchain", s), "fresh") : s \in Addrs}
      ELSE {}) \cup
     {Op("end", BaseTx("none", NoAddr), "fresh")}
